@@ -522,5 +522,8 @@ func TestMutations(t *testing.T) {
 	r := startRun(t)
 	witness(t, r, findingEmptyType, MutCase{Conf: witnessConf, Mut: Mut{Kind: mBadType, Site: "pools/0/ammo", Op: "set", Key: "type",
 		Value: `""`, Comp: "ammo/uri", Depth: 1}}, checkMut)
+	if t.Failed() {
+		return // a failed witness is reported with its own replay file; rapid refuses a failed *testing.T
+	}
 	vf.Check(r, genMut(r), checkMut)
 }
